@@ -39,6 +39,7 @@ def initial_state(eng, fi, c):
     env = Env({})
     st = State(env, heap, [])
     st.assume(heap.alloc >= 0)
+    st.assume(*heap.closed_facts())
     params = {}
     a = fi.node.args
     names = [x.arg for x in a.posonlyargs + a.args] + [x.arg for x in a.kwonlyargs]
@@ -198,16 +199,25 @@ def discharge(eng, rep, opts):
             rep.obligations.append(dict(name=ob.name, kind=ob.kind, status="unsat", seconds=0.0,
                                         backend="simplifier", line=ob.lineno))
             continue
-        r = smt.check_valid(ob.pc, ob.goal, timeout)
+        # staged: z3 (short) -> cvc5 -> z3 (long).  Only `unsat` discharges; cvc5 often decides in a second
+        # what z3's quantifier instantiation does not find in ten (measured), and vice versa.
+        quick_ms = opts.get("z3_quick_ms", 6000)
+        r = smt.check_valid(ob.pc, ob.goal, quick_ms)
         backend = "z3"
         secs = r.seconds
         if r.status == "unknown" and opts.get("cvc5", True):
             from . import cvc5_backend
-            r2 = cvc5_backend.check(ob.pc, ob.goal, opts.get("cvc5_timeout_ms", 20000))
+            r2 = cvc5_backend.check(ob.pc, ob.goal, opts.get("cvc5_timeout_ms", 60000))
             secs += r2.seconds
             if r2.status in ("unsat", "sat"):
                 r = r2
                 backend = "cvc5"
+        if r.status == "unknown" and timeout > quick_ms:
+            r3 = smt.check_valid(ob.pc, ob.goal, timeout, config={})   # z3 with model-based instantiation
+            secs += r3.seconds
+            if r3.status != "unknown":
+                r = r3
+                backend = "z3"
         ob.result = r
         d = dict(name=ob.name, kind=ob.kind, status=r.status, seconds=round(secs, 4), backend=backend,
                  line=ob.lineno)
